@@ -1,6 +1,10 @@
 package variants
 
-import "github.com/pip-services3-gox/pip-services3-commons-gox/errors"
+import (
+	"math"
+
+	"github.com/pip-services3-gox/pip-services3-commons-gox/errors"
+)
 
 type IVariantOperationsOverrides interface {
 	Convert(value *Variant, newType VariantType) (*Variant, error)
@@ -300,23 +304,17 @@ func (c *AbstractVariantOperations) Pow(
 
 	// Performs operation.
 	switch value1.Type() {
-	case Integer:
-	case Long:
-	case Float:
-	case Double:
-		// Converts second operant to the type of the first operand.
+	case Integer, Long, Float, Double:
 		var err error
 		value1, err = c.Overrides.Convert(value1, Double)
 		if err != nil {
 			return nil, err
 		}
-
 		value2, err = c.Overrides.Convert(value2, Double)
 		if err != nil {
 			return nil, err
 		}
-
-		result.SetAsDouble(value1.AsDouble() * value2.AsDouble())
+		result.SetAsDouble(math.Pow(value1.AsDouble(), value2.AsDouble()))
 		return result, nil
 	}
 
